@@ -98,6 +98,27 @@ pub fn run<W: Write>(out: &mut W) {
             }
         }
     }
+    // ... and promise VALUES: the constructor's verdict depends on the counts only, whatever the promises are (0, around 2^bits, around 2^32, u64::MAX),
+    // for every bit length (the documented domain of RangeStatement::init says nothing about promise values)
+    for bits in [1usize, 2, 4, 8, 16, 32, 64] {
+        for cap in [1usize, 4] {
+            let params = RangeParameters::<FM>::init(bits, cap, FM::pedersen(1)).unwrap();
+            for count in [1usize, 2, 4, 3] {
+                let top: u64 = if bits == 64 { u64::MAX } else { (1u64 << bits) - 1 };
+                for pv in [0u64, 1, top, top.wrapping_add(1), top.wrapping_add(2), (1u64 << 32).wrapping_add(1), u64::MAX - 1, u64::MAX] {
+                    for seed in [false, true] {
+                        let commitments: Vec<FM> = (0..count).map(|j| params.pc_gens().commit(&Scalar::from(j as u64 + 1), &[Scalar::from(3u64 + j as u64)]).unwrap()).collect();
+                        let promises: Vec<Option<u64>> = (0..count).map(|j| if j == count - 1 { Some(pv) } else { None }).collect();
+                        let sd = if seed { Some(Scalar::from(99u64)) } else { None };
+                        let (c2, p2) = (commitments.clone(), promises.clone());
+                        let r = catch_unwind(AssertUnwindSafe(|| RangeStatement::<FM>::init(params.clone(), commitments, promises, sd)));
+                        let c = code(r, |s| s.commitments == c2 && s.minimum_value_promises == p2 && s.seed_nonce == sd && s.generators.bit_length() == bits);
+                        rows.push(json!([cap, count, count, seed as u8, c]));
+                    }
+                }
+            }
+        }
+    }
     writeln!(out, "{}", json!({"family": "statement", "rows": rows})).unwrap();
 
     // (c) witnesses: shapes of blinding counts
